@@ -14,7 +14,7 @@ RULE = ('operand pairs over linear table units (any admissible prefix), #system 
         'case; distinct by (op, u, v, exponent form, operand kinds)')
 SHARDS = {'quick': 16, 'thorough': 16}
 MIN_NONTRIVIAL = {'quick': 5000, 'thorough': 150000}
-REQUIRED_CLASSES = ['number-type:py', 'number-type:np.float64', 'number-type:np.int', 'number-type:ndarray', 'add', 'sub', 'mul', 'div', 'neg', 'pow-int', 'pow-pair', 'pow-float', 'pow-float-noninteger', 'reflected-number-left',
+REQUIRED_CLASSES = ['operands-with-uncertainty', 'number-type:py', 'number-type:np.float64', 'number-type:np.int', 'number-type:ndarray', 'add', 'sub', 'mul', 'div', 'neg', 'pow-int', 'pow-pair', 'pow-float', 'pow-float-noninteger', 'reflected-number-left',
                     'number-right', 'array', 'scalar', 'different-units-same-dimension', 'total-cancellation', 'partial-cancellation',
                     'refuse-different-dimension', 'refuse-reciprocal-dimension', 'refuse-number-plus-dimensional', 'compound-operand', 'sum-of-number-and-dimensionless-unit', 'both-operands-one-object', 'chain', 'chain:root-of-square', 'chain:product-of-halves', 'chain:np.sqrt-of-square']
 REQUIRED_MONITORS = ['base_value_compares', 'dimension_compares', 'unit_exponent_compares', 'refusals_demanded']
@@ -116,7 +116,7 @@ def cases(rng, tier, shard, nshards, ctx):
             selfflag = locals().get('selfflag', False) and kind == 'same-unit'
             if v is None and rng.random() < 0.3:
                 xb_ = rng.choice([0, 0.0, 1, False, True])       # the neutral elements and their bool spellings are numbers like any other
-            yield dict(op=op, u=u, v=v, kind=kind, xa=pick(rng), xb=xb_, arr=arr, side=rng.choice(['right', 'left']), numtype=rng.choice(['py', 'py', 'np.float64', 'np.int', 'ndarray']), self=selfflag)
+            yield dict(op=op, u=u, v=v, kind=kind, xa=pick(rng), xb=xb_, arr=arr, side=rng.choice(['right', 'left']), numtype=rng.choice(['py', 'py', 'np.float64', 'np.int', 'ndarray']), self=selfflag, unc=rng.random() < 0.2)
             selfflag = False
         elif r < 0.62:
             op = rng.choice(['mul', 'div'])
@@ -159,6 +159,17 @@ def cases(rng, tier, shard, nshards, ctx):
                 n_ = rng.choice([1, -1, 2, 3, -3, 5])
             yield dict(op='pow', u=gen_unit(rng, ctx, rng.choice([1, 1, 2])), v=None, kind=form, n=n_, d=d_, xa=pick(rng, positive=(d_ != 1)),
                        xb=0, arr=arr, side=rng.choice(['operator', 'operator', 'np.power']) if form != 'pair' else 'operator')
+
+
+def srepr(q):
+    """printing a magnitude whose value or uncertainty is exactly zero raises in the library (log10 of 0) - outside C06"""
+    try:
+        return repr(q)
+    except Exception as e:
+        try:
+            return 'unprintable(%s) value=%r units=%r' % (type(e).__name__, getattr(q.magnitude, 'value', None), q.units())
+        except Exception:
+            return 'unprintable(%s)' % type(e).__name__
 
 
 def run_case(case, ctx):
@@ -268,7 +279,12 @@ def _run(case, ctx):
     Bb = [x * Fv for x in xb]
     if not U.finite_ok(*(Ba + Bb)):
         return outcome(skip='overflow')
-    mkq = lambda xs, t: Q(list(xs), t) if arr else Q(xs[0], t)
+    unc = bool(case.get('unc'))            # measured operands: the VALUES obey the same arithmetic whatever uncertainty rides along
+    if unc:
+        classes.append('operands-with-uncertainty')
+        mkq = lambda xs, t: Q(list(xs), t, abse=0.01 * min(abs(z) for z in xs) + 1e-3) if arr else Q(xs[0], t, abse=0.01 * abs(xs[0]) + 1e-3)
+    else:
+        mkq = lambda xs, t: Q(list(xs), t) if arr else Q(xs[0], t)
     num = lambda xs: (np.array(xs) if arr else xs[0])
     a = mkq(xa, ut)
     number_b = case['v'] is None and op in ('add', 'sub', 'mul', 'div')
@@ -383,7 +399,7 @@ def _run(case, ctx):
     if refuse:
         mon['refusals_demanded'] = 1
         if exc is None:
-            devs.append(dev('sum-of-different-dimensions-accepted', dict(descr, result=repr(res)[:100])))
+            devs.append(dev('sum-of-different-dimensions-accepted', dict(descr, result=srepr(res)[:100])))
         return outcome(classes=classes, nontrivial=True, fp=fp, dev=devs, monitors=mon, sample=dict(descr, expected='error', observed=repr(exc)[:100]))
     if exc is not None and isinstance(exc, OverflowError) and expU is not None:
         # the factor of ONE unit of the result leaves the float range although the total does not: not a verdict
@@ -421,11 +437,11 @@ def _run(case, ctx):
     ok = len(obsB) == len(expB) and all(close(o, e, 1e-9, atol) for o, e in zip(obsB, expB))
     d0 = len(devs)
     if not ok:
-        devs.append(dev(op + '-base-value', dict(descr, observed_base=obsB, expected_base=expB, result=repr(res)[:100])))
+        devs.append(dev(op + '-base-value', dict(descr, observed_base=obsB, expected_base=expB, result=srepr(res)[:100])))
     mon['dimension_compares'] = 1
     realD = U.dims_from_real(res.baseunits.dimensions)
     if realD != expD or Dr_ != expD:
-        devs.append(dev(op + '-dimensions', dict(descr, reported=U.fmt_dims(realD), of_reported_units=U.fmt_dims(Dr_), expected=U.fmt_dims(expD), result=repr(res)[:100])))
+        devs.append(dev(op + '-dimensions', dict(descr, reported=U.fmt_dims(realD), of_reported_units=U.fmt_dims(Dr_), expected=U.fmt_dims(expD), result=srepr(res)[:100])))
     mon['unit_exponent_compares'] = 1
     if op in ('add', 'sub'):
         l_units = ((b.units() if b is not None else None) if left else a_units)
@@ -454,11 +470,11 @@ def _run(case, ctx):
             twf, twd = factor_of_map(T, U.nonzero(tw))
             value_ok = all(close(z, x ** e, 1e-9) for z, x in zip(rv, xa))
             if value_ok and r_um == U.nonzero(tw) or (not any(twd) and value_ok):
-                devs = [dev('float-exponent-truncated', dict(descr, result=repr(res)[:80], units=res.units()), known=KEY_FLOATEXP)]
+                devs = [dev('float-exponent-truncated', dict(descr, result=srepr(res)[:80], units=res.units()), known=KEY_FLOATEXP)]
         except Exception:
             pass
     return outcome(classes=classes, nontrivial=nontriv, fp=fp, dev=devs, monitors=mon,
-                   sample=dict(descr, result=repr(res)[:80], expected_base=expB[:3], observed_base=obsB[:3]))
+                   sample=dict(descr, result=srepr(res)[:80], expected_base=expB[:3], observed_base=obsB[:3]))
 
 
 def pinned(ctx):
